@@ -16,9 +16,6 @@ Definition is_ws (s : seg) : bool := match s with Seg _ _ _ _ w _ _ _ => w end.
 Definition is_cm (s : seg) : bool := match s with Seg _ _ _ _ _ c _ _ => c end.
 Definition is_mt (s : seg) : bool := match s with Seg _ _ _ _ _ _ m _ => m end.
 
-Fixpoint concat_str (l : list string) : string :=
-  match l with [] => "" | x :: r => x ++ concat_str r end.
-
 Fixpoint raw (s : seg) : string :=
   match s with
   | Seg _ _ _ r _ _ _ [] => r
